@@ -149,6 +149,9 @@ func (e *Env) apply(f *Fault) {
 				desc = "merge -> " + m.Name
 			}
 		}
+	case "procfail":
+		desc = "every third procedure fails with " + f.Rule.Class
+		c.ProcFail = f.Rule.Class
 	case "drop":
 		desc = "drop table " + f.Table
 		c.DropTable(f.Table)
